@@ -5,7 +5,7 @@
    top-level values of the extracted file share a name (definitions in different Coq
    files must have distinct names). *)
 From Coq Require Import Extraction ExtrOcamlBasic NArith ZArith QArith Qreduction List.
-From JLS Require Import Generated CrcDefs Spec StatsQ MrbModel TmapModel BitCopyModel FsrPackModel Format Decode WriteOnce DefsModel PyramidModel SigDef TsModel.
+From JLS Require Import Generated CrcDefs Spec StatsQ MrbModel TmapModel BitCopyModel FsrPackModel Format Decode WriteOnce DefsModel PyramidModel SigDef SpecFast TsModel TwrModel WmRaw WmCore WmTs WmFsr WriterModel SummQ.
 Extraction Language OCaml.
 Extraction "jlsmodel_ext"
   BinInt.Z.add BinInt.Z.opp BinInt.Z.of_N BinInt.Z.to_N BinNat.N.add BinNat.N.mul BinNat.N.of_nat BinNat.N.to_nat
@@ -30,7 +30,7 @@ Extraction "jlsmodel_ext"
   PyramidModel.py_srun PyramidModel.py_run PyramidModel.py_fsr_length PyramidModel.py_fsr_seek
   PyramidModel.py_rd_data0 PyramidModel.py_cache0 PyramidModel.py_step PyramidModel.py_cap
   PyramidModel.py_chunk_level PyramidModel.py_chunk_tag PyramidModel.py_consistentb
-  Spec.source0 Spec.signal0 Spec.sp_align
+  Spec.source0 Spec.signal0 Spec.sp_align SpecFast.sf_wstep SpecFast.sf_run
   DefsModel.df_enc_str DefsModel.df_dec_str DefsModel.df_rd_str DefsModel.df_rd_skip DefsModel.df_rd_u8
   DefsModel.df_rd_u16 DefsModel.df_rd_u32 DefsModel.df_enc_source_def DefsModel.df_dec_source_def
   DefsModel.df_enc_signal_def DefsModel.df_dec_signal_def DefsModel.df_str_fitsb DefsModel.df_open
@@ -38,4 +38,11 @@ Extraction "jlsmodel_ext"
   DefsModel.df_rd_signal DefsModel.df_rd_user_data DefsModel.df_op_of
   SigDef.sd_define SigDef.sd_align_fast SigDef.sd_validate SigDef.sd_defaults SigDef.sample_size SigDef.consistent_clauses
   SigDef.consistentb SigDef.entry256b SigDef.sd_loop_args
-  TsModel.ts_kv_writes TsModel.ts_kv_close TsModel.ts_kv_annotations TsModel.ts_kv_utc.
+  TsModel.ts_kv_writes TsModel.ts_kv_close TsModel.ts_kv_annotations TsModel.ts_kv_utc
+  TwrModel.tw_init TwrModel.tw_step TwrModel.tw_tick TwrModel.tw_run TwrModel.tw_enabled TwrModel.tw_final
+  TwrModel.tw_some_sleeping TwrModel.tw_deadlocked TwrModel.tw_EBUSY TwrModel.tw_ETIMEDOUT TwrModel.tw_processed
+  TwrModel.tw_acc_msgs TwrModel.tw_unprocessed
+  WriterModel.wm_run WriterModel.wm_run_full WriterModel.wm_step WriterModel.wm_step_rc
+  WriterModel.wm_api_open WriterModel.wm_api_close WriterModel.wm_st_log WriterModel.wm_st_fault WriterModel.wm_find_sig
+  SummQ.sq_levels SummQ.sq_level1 SummQ.sq_level_next SummQ.sq_summary1 SummQ.sq_summaryN
+  SummQ.sq_rd_statistics SummQ.sq_wr_blocks SummQ.sq_reconstruct.
